@@ -208,7 +208,30 @@ func c16prop(r *simkit.Run) {
 		spec.plan.cutAt, spec.plan.then = 0, "stall"
 		spec.clientCloseWhenBackendHasRequest = true
 	}
-	res := runExchange(spec)
+	// By draw the client of a fault-free exchange is a slow one, and while the proxy waits for it with response bytes in
+	// hand, another client is served a long response of its own through a forwarder of its own, start to end.
+	var res exchangeResult
+	if fault == "none" && oddTarget == "" && !spec.lateProbe && n >= 60000 && rapid.IntRange(0, 2).Draw(rt, "slow-client-and-a-second-exchange") == 0 {
+		sc := &slowClient{window: 2048, readFirst: rapid.IntRange(1, 3000).Draw(rt, "slow-client-reads-first"), paused: make(chan struct{}), resume: make(chan struct{})}
+		spec.slow = sc
+		obody := bytes.Repeat([]byte("#"), 100000)
+		oresp, _ := buildResponse(200, nil, obody, false, nil)
+		done := make(chan exchangeResult, 1)
+		go func() { done <- runExchange(spec) }()
+		select {
+		case <-sc.paused:
+			other := runExchange(exchangeSpec{rawRequest: []byte("GET /other HTTP/1.1\r\nHost: example.com\r\n\r\n"), peerAddr: "192.0.2.8:6666", plan: backendPlan{response: oresp, cutAt: -1}})
+			if other.hung != "" || other.status != 200 || !bytes.Equal(other.body, obody) {
+				r.Fail("body", "a second client, served while the first one's proxy waited for its slow reader, got status %d, %d body bytes (sent %d, first difference at %d) %s", other.status, len(other.body), len(obody), firstDiff(other.body, obody), other.hung)
+			}
+			r.Fault("slow-client-overlapped-by-a-second-exchange")
+			close(sc.resume)
+			res = <-done
+		case res = <-done:
+		}
+	} else {
+		res = runExchange(spec)
+	}
 	for i := 0; i < res.lateProbes; i++ {
 		r.Fault("request-probe-after-response-start")
 	}
